@@ -19,6 +19,23 @@ _SRCS = sdk_sources('common', 'resource', 'version', 'trace')
 HARNESSES = [Harness(H, ['harness/s_c04.cc'], sdk_srcs=_SRCS, includes=SDK_INCLUDES),
              Harness(H2, ['harness/s_c04.cc'], sdk_srcs=_SRCS, includes=SDK_INCLUDES,
                      flags=['-UOPENTELEMETRY_ABI_VERSION_NO', '-DOPENTELEMETRY_ABI_VERSION_NO=2'])]
+import importlib, os
+SUBS = [importlib.import_module('props.' + n) for n in ('c04_race',) if os.path.exists(os.path.join(os.path.dirname(__file__), n + '.py'))]
+for _m in SUBS:
+    LEAN_TARGETS = LEAN_TARGETS + list(_m.LEAN_TARGETS)
+    THEOREMS = THEOREMS + list(_m.THEOREMS)
+    HARNESSES = HARNESSES + [h for h in _m.HARNESSES if h.name not in {x.name for x in HARNESSES}]
+    GEN = GEN + [g for g in (_m.GEN or []) if g not in GEN]
+
+
+def _sub(case):
+    w = case.line.split()[0] if case.line.split() else ''
+    for m in SUBS:
+        if w in m.WORDS:
+            return m
+    return None
+
+
 RULE = ('one case = one span program: StartSpan(name, kind, system/steady start options incl. 0 = not given, 0-6 attributes with '
         'duplicate keys, 0-3 links with own attributes) on a provider with 1-8 processors of mixed kinds (simple / batch flushed '
         'later), then 0-40 operations (SetAttribute with every AttributeValue alternative, the four AddEvent overloads, SetStatus, '
@@ -263,7 +280,7 @@ def corpus():
                 'span s 00 -/-/- 6e 0 0 0 - - ; par ; @1 attr 30 i:1', 'span s 00 -/-/- 6e 0 0 0 - - ; par ; @1 end 5', 'span s 00 -/-/- 6e 0 0 0 - - ; @1 par',
                 'span s 00 -/-/- 6e 0 0 0 - - ; par ; @1 ev -'):
         out.append(C(bad, 'malformed'))
-    return out
+    return out + [c for m in SUBS for c in m.corpus()]
 
 
 def generate(rng, tier):
@@ -307,7 +324,7 @@ def generate(rng, tier):
         else:
             toks[j] = toks[j][:-1]
         out.append(Case(' '.join(toks), H, ('damaged-token',)))
-    return out
+    return out + [c for m in SUBS for c in m.generate(rng, tier)]
 
 
 # ---------------------------------------------------------------------------------------------- reference of the SPEC
@@ -507,6 +524,23 @@ def strip_index(s):
 
 
 def oracle(case, out):
+    m = _sub(case)
+    if m:
+        return m.oracle(case, out)                     # the sub-check has its own malformed stream
+    return _oracle(case, out)
+
+
+def model_line(case, out):
+    m = _sub(case)
+    return m.model_line(case, out) if m and hasattr(m, 'model_line') else case.line
+
+
+def agree(case, out, mout):
+    m = _sub(case)
+    return m.agree(case, out, mout) if m and hasattr(m, 'agree') else out == mout
+
+
+def _oracle(case, out):
     if out.startswith('CRASH'):
         return ('owned-copies-no-crash', out)
     try:
@@ -544,12 +578,18 @@ def oracle(case, out):
 
 
 def signature(case, out, clause):
+    m = _sub(case)
+    if m and hasattr(m, 'signature'):
+        return m.signature(case, out, clause)
     if out.startswith('CRASH'):
         return clause + '/' + out.split(' ', 1)[1] if ' ' in out else clause
     return clause
 
 
 def nontrivial(case, out):
+    m = _sub(case)
+    if m and hasattr(m, 'nontrivial'):
+        return m.nontrivial(case, out)
     return ' ; ' in case.line and not out.startswith('bad-op') and not out.startswith('CRASH')
 
 
@@ -570,4 +610,8 @@ LEVEL_NOTE = ('Trusted: Lean kernel; axioms propext/Quot.sound/Classical.choice 
               'concurrently with an interleaving-independent expected outcome (ASan only, no TSan); (3) the batch processor is '
               'modelled only as "queued at OnEnd, exported at ForceFlush" (its protocol is C01-C03); (4) span identity is C05.')
 DESIGN_REF = 'DESIGN.md section 4, C04'
+for _m in SUBS:
+    RULE = RULE + ' | ' + getattr(_m, 'RULE', '')
+    LEVEL_TEXT = LEVEL_TEXT + getattr(_m, 'LEVEL_TEXT_ADD', '')
+    LEVEL_NOTE = LEVEL_NOTE + getattr(_m, 'LEVEL_NOTE_ADD', '')
 TECHNIQUE = 'proof (Lean 4) + differential correspondence run + implementation-side oracle'
